@@ -38,7 +38,7 @@ pub fn flow_recv(method: &Method, v10: bool, extra: &[(&str, &str)]) -> Result<F
     let req = b.body(()).map_err(|e| e.to_string())?;
     let mut f = Flow::new(req).map_err(|e| format!("Flow::new: {:?}", e))?.proceed();
     let mut out = [0u8; 1024];
-    f.write(&mut out).map_err(|e| format!("head write: {:?}", e))?;
+    crate::drive::redirect::write_head_until_ready(&mut f, &mut out).map_err(|e| format!("head write: {:?}", e))?;
     match f.proceed().map_err(|e| format!("SendRequest::proceed: {:?}", e))? {
         Some(SendRequestResult::RecvResponse(f)) => Ok(f),
         Some(SendRequestResult::SendBody(mut f)) => {
@@ -69,7 +69,7 @@ pub fn flow_recv_saw_100(v10: bool, interim: &[u8]) -> Result<Flow<(), RecvRespo
         .map_err(|e| e.to_string())?;
     let mut f = Flow::new(req).map_err(|e| format!("Flow::new: {:?}", e))?.proceed();
     let mut out = [0u8; 1024];
-    f.write(&mut out).map_err(|e| format!("head write: {:?}", e))?;
+    crate::drive::redirect::write_head_until_ready(&mut f, &mut out).map_err(|e| format!("head write: {:?}", e))?;
     match f.proceed().map_err(|e| format!("SendRequest::proceed: {:?}", e))? {
         Some(SendRequestResult::Await100(mut a)) => {
             let n = a.try_read_100(interim).map_err(|e| format!("try_read_100: {:?}", e))?;
